@@ -112,7 +112,7 @@ func cRes(r vReadRes) string {
 
 var vEnv = [][2]string{{"VERIF_A", "valueA"}, {"VERIF_EMPTY", ""}, {"VERIF_B", "x y"}, {"VERIF_NEST", "{env:VERIF_A}"}}
 
-func vEmit(out *vOut, input string, files map[string]string, dir string, stats map[string]int, stream string) {
+func vEmit(out *vOut, input string, files map[string]string, dir string, stats map[string]int, stream string, src ...[]Node) {
 	loc := filepath.Join(dir, "main.conf")
 	r := vRead(input, loc)
 	if r.slow {
@@ -185,8 +185,35 @@ func vEmit(out *vOut, input string, files map[string]string, dir string, stats m
 	default:
 		stats["res_ok"]++
 	}
-	out.Case(fmt.Sprintf("{| c_inp := %s; c_files := %s; c_env := %s; c_spaces := %s; c_letters := %s; c_digits := %s; c_res := %s; c_printed := %s; c_rt := %s |}",
-		cS(input), cList(fitems), cList(eitems), tab(sp), tab(le), tab(di), cRes(r), printed, rt))
+	csrc := "None"
+	if len(src) == 1 {
+		csrc = "(Some " + cNodes(src[0]) + ")"
+	}
+	out.Case(fmt.Sprintf("{| c_inp := %s; c_files := %s; c_env := %s; c_spaces := %s; c_letters := %s; c_digits := %s; c_res := %s; c_printed := %s; c_rt := %s; c_src := %s |}",
+		cS(input), cList(fitems), cList(eitems), tab(sp), tab(le), tab(di), cRes(r), printed, rt, csrc))
+}
+
+// ---- trees built directly (not obtained by parsing): their canonical print must read back ----
+var vTreeNames = []string{"hostname", "tls", "a", "b.c", "x-y", "_u", "имя", "storage.imapsql", "Zürich", "deliver_to"}
+var vTreeArgs = []string{"local", "a b", "", "q\"uote", "multi\nline", "cr\r\nlf", "\rx", "x\r", "\r\n", "two\r\r\nlines", "tab\there",
+	"a\\b", "\\\\", "#hash", "{x", "}y", "$x", "(p)", "é", "日本", "tcp://0.0.0.0:25", "  lead", "trail  ", "\"\"", "a\"", "=", "\u00a0nbsp"}
+
+func vTree(r *vRand, depth int) []Node {
+	var ns []Node
+	for i := 0; i < 1+r.intn(3); i++ {
+		n := Node{Name: vTreeNames[r.intn(len(vTreeNames))]}
+		for j := 0; j < r.intn(4); j++ {
+			n.Args = append(n.Args, vTreeArgs[r.intn(len(vTreeArgs))])
+		}
+		if depth > 0 && r.chance(35) {
+			n.Children = []Node{}
+			if r.chance(80) {
+				n.Children = vTree(r, depth-1)
+			}
+		}
+		ns = append(ns, n)
+	}
+	return ns
 }
 
 // ---- grammar-based generator ----
@@ -391,6 +418,12 @@ func TestVerif_C20(t *testing.T) {
 		vEmit(out, cfg, nil, dir, stats, "grammar")
 		if i%2 == 0 {
 			vEmit(out, vMutate(r, cfg), nil, dir, stats, "mutated")
+		}
+		if i%5 == 0 {
+			t0 := vTree(r, 3)
+			var b strings.Builder
+			vPrint(&b, t0, 0)
+			vEmit(out, b.String(), nil, dir, stats, "built_trees", t0)
 		}
 		if i%8 == 0 {
 			l := r.intn(40)
